@@ -25,14 +25,27 @@ RULE = ("table of per-function generators over cplx.py (make_complex, numpy, rea
         "(ranks 0..4, size-1 dims, non-square, broadcast pairs, empty dims vs numpy only) + random shapes with dims in "
         "{1,2,3,4} (thorough: all dim combinations for matmul/kron/outer), values from the mixture in harness/gen.py "
         "(normal | uniform | sparse large magnitudes up to 30 | exact zeros), divisors forced away from 0, the float32 "
-        "constant cplx.I as operand, out= modes fresh/x/y/view-of-x/view-of-y, malformed operands per function; a case is "
+        "constant cplx.I as operand, out= modes fresh (contiguous and strided buffers)/x/y/view-of-x/view-of-y/wrong shape, "
+        "malformed operands per function (any exception counts as rejection); every third valid case has its operands in "
+        "a non-contiguous layout (strided slice, real/imag interleaved, transposed storage, stride-0 expansion); a wide "
+        "stream 1e-100..1e100 (hard requirement) and an extreme stream 1e+-155..1e+-300 / sigmoid |x| > 700 (reported as "
+        "'extreme magnitudes: ...', open known finding); sigmoid with broadcasting real/imaginary arguments; a case is "
         "(function, options, operand values); non-trivial := every complex operand has a non-zero imaginary part and, "
         "for shaped functions, the shapes are non-square / the operands differ (so transposition, argument order and "
         "conjugation side are observable)")
 ASSUMPTIONS = ["torch.mul/matmul/dot/ger/einsum/cat/transpose and numpy complex128 arithmetic implement the real/complex "
                "operations up to rounding (oracle tolerance 1e-9 relative to the magnitude of the summands)",
-               "operand magnitudes <= ~30 (no overflow), divisors |z| >= 0.05, sigmoid arguments away from its poles",
-               "empty dimensions and batched matmul are compared with numpy only (not modelled)"]
+               "magnitudes: ordinary stream |value| <= ~180, wide stream 1e-100..1e100 (hard requirement, native result "
+               "finite), extreme stream 1e+-155..1e+-300 and sigmoid |x| up to 745 (reported as 'extreme magnitudes: ...', "
+               "an open known finding: |z|^2 overflows / underflows inside the kernel)",
+               "divisors are non-zero (|z| >= 0.05 in the ordinary stream); sigmoid arguments within 1e-3 of a pole "
+               "1 + e^z = 0 are skipped and counted (skipped:sigmoid-near-pole)",
+               "the error CLASS raised for malformed operands is not part of the property (any exception counts); the "
+               "model's ValueErr/RuntimeErr are compared with the implementation only as raises / returns",
+               "empty dimensions, batched matmul, other einsum equations and the extreme stream are compared with numpy "
+               "only (not with the model); sigmoid is compared with the model for |x| <= 300 (the model divides naively)"]
+EXTREME_WHAT = "extreme magnitudes: result equals native complex arithmetic"
+WRONG_SHAPE_WHAT = "out= buffer of the wrong shape is rejected"
 
 KNOWN_WHAT = "out= view aliasing an operand is rejected"
 KIND_NAME = {0: "no error", 1: "ValueError", 2: "RuntimeError"}
@@ -64,14 +77,35 @@ def put(case, key, t):
     return case
 
 
+def relayout(t, layout):
+    """same values and shape, different memory layout: 's' strided slice of a larger buffer, 'i' real/imag interleaved
+    (the complex axis has stride 1, as in numpy complex arrays), 't' first two tensor axes stored transposed,
+    'e' stride-0 expansion of the first tensor axis (only when the values are constant along it)"""
+    import torch
+    if not layout or t.numel() == 0 or t.dim() == 0:
+        return t
+    if layout == "s":
+        big = torch.full(tuple(t.shape[:-1]) + (2 * t.shape[-1] + 1,), 99.0, dtype=t.dtype)
+        v = big[..., 1::2]
+        v.copy_(t)
+        return v
+    if layout == "i" and t.dim() >= 2:
+        return t.movedim(0, -1).contiguous().movedim(-1, 0)
+    if layout == "t" and t.dim() >= 3:
+        return t.transpose(1, 2).contiguous().transpose(1, 2)
+    if layout == "e" and t.dim() >= 2 and bool((t == t[:, :1]).all()):
+        return t[:, :1].expand(*t.shape)
+    return t
+
+
 def mk(case, key):
-    """rebuild the operand tensor of a case (exact: doubles survive tolist / json)"""
+    """rebuild the operand tensor of a case (exact: doubles survive tolist / json), in the recorded memory layout"""
     import torch
     shp = case.get(key + "_shape")
     t = torch.tensor(common.flat(case[key]), dtype=torch.double)
     if shp is None:
         shp = common.shape_of(case[key])
-    return t.reshape([int(s) for s in shp])
+    return relayout(t.reshape([int(s) for s in shp]), case.get(key + "_layout"))
 
 
 def ekind(e):
@@ -154,18 +188,17 @@ def req_value(ctx, case, fn, kind, val, want, scale, rk="c", rtol=1e-9):
     return ok
 
 
-def req_error(ctx, case, fn, kind, val, expect):
-    code = KIND_CODE[expect]
-    detail = ("raised " + kname(kind) + ": " + repr(val)[:200]) if kind != 0 else "returned a value instead of raising"
-    return ctx.require("%s raises %s on malformed operands" % (fn, expect), kind == code, case, detail)
+def req_error(ctx, case, fn, kind, val, expect=None):
+    """the property only says 'rejected with an error': ANY exception counts, a returned value does not"""
+    return ctx.require("%s rejects malformed operands with an error" % fn, kind != 0, case,
+                       "returned a value instead of raising: " + repr(val)[:200])
 
 
 def corr_kind(ctx, case, fn, kind, tag):
-    """error kind / Ok tag; an implementation error of a kind the model does not have is not compared"""
-    if kind in (0, 1, 2):
-        return ctx.agree_exact(fn + ": result kind (0 ok, 1 ValueError, 2 RuntimeError)", kind, int(tag), case)
-    ctx.count("err:not-compared")
-    return False
+    """raises vs returns (the exception class is not compared: it is not part of the property)"""
+    if kind != 0 and int(tag) != 0 and kind in (1, 2) and kind != int(tag):
+        ctx.count("err:class differs from the model's (not compared)")
+    return ctx.agree_exact(fn + ": raises (1) / returns (0)", int(kind != 0), int(int(tag) != 0), case)
 
 
 def corr_value(ctx, case, fn, val, mval, scale, **tol):
@@ -186,6 +219,24 @@ def unchanged(ctx, case, fn, pairs):
 
 
 # --------------------------------------------------------------------------- reference semantics (numpy complex128)
+def ref_sigmoid(x, y):
+    """e^z / (1 + e^z) evaluated without overflow: 1 / (1 + e^-z) for re z >= 0"""
+    z = np.asarray(x, dtype=np.float64) + 1j * np.asarray(y, dtype=np.float64)
+    with np.errstate(all="ignore"):
+        pos = 1.0 / (1.0 + np.exp(-np.where(z.real >= 0, z, 0)))
+        ez = np.exp(np.where(z.real < 0, z, 0))
+        neg = ez / (1.0 + ez)
+    return np.where(z.real >= 0, pos, neg)
+
+
+def ref_norm(X):
+    X = np.asarray(X).reshape(-1)
+    m = amax(X)
+    if m == 0.0 or not np.isfinite(m):
+        return m
+    return m * float(np.sqrt(np.sum(np.abs(X / m) ** 2)))
+
+
 def _bprod(X, Y):
     return amax(np.abs(X) * np.abs(Y))
 
@@ -252,8 +303,6 @@ def eval_bin(ctx, cplx, case, corr):
         want = ref(X, Y)
         scale = bound(X, Y)
         req_value(ctx, case, fn, kind, val, want, scale, rtol=(1e-5 if f32 else 1e-9))
-        if kind == 0 and isinstance(val, torch.Tensor) and (case.get("x_is_I") or case.get("y_is_I")):
-            ctx.require("%s result has the dtype of x (y = y.to(x))" % fn, val.dtype == x0.dtype, case, str(val.dtype))
     unchanged(ctx, case, fn, [(x, x0), (y, y0)])
     ctx.count("err:" + kname(kind))
     if not corr or not modelable(x0, y0):
@@ -285,8 +334,6 @@ def eval_un(ctx, cplx, case, corr):
         want = ref(X)
         scale = bound(X)
         req_value(ctx, case, fn, kind, val, want, scale, rk=rk)
-        if fn == "numpy" and kind == 0 and isinstance(val, (np.ndarray, np.generic)):
-            ctx.require("numpy() returns complex128", val.dtype == np.complex128, case, str(val.dtype))
     unchanged(ctx, case, fn, [(x, x0)])
     ctx.count("err:" + kname(kind))
     if not corr or mname is None or not modelable(x0):
@@ -297,7 +344,7 @@ def eval_un(ctx, cplx, case, corr):
     elif kind == 0:
         corr_value(ctx, case, fn, val, r, scale)
     else:
-        ctx.agree_exact(fn + ": result kind (model: total function)", kind, 0, case)
+        ctx.agree_exact(fn + ": raises (1) / returns (0) (model: total function)", int(kind != 0), 0, case)
 
 
 def eval_make_complex(ctx, cplx, case, corr):
@@ -324,10 +371,6 @@ def eval_make_complex(ctx, cplx, case, corr):
         else:
             want = x0.numpy() + 1j * (y.numpy() if y is not None else np.zeros_like(x0.numpy()))
         req_value(ctx, case, "make_complex", kind, val, want, 0.0)
-        if kind == 0 and isinstance(val, torch.Tensor):
-            ctx.require("make_complex result is float64", val.dtype == torch.double, case, str(val.dtype))
-            if form == "numpy":
-                ctx.require("make_complex(ndarray) is contiguous", bool(val.is_contiguous()), case)
     ctx.count("err:" + kname(kind))
     if not corr or not modelable(x0) or (y is not None and not modelable(y)):
         return
@@ -351,12 +394,13 @@ def eval_sigmoid(ctx, cplx, case, corr):
         if not case.get("soft"):
             req_error(ctx, case, "sigmoid", kind, val, expect)
     else:
-        z = x0.numpy() + 1j * y0.numpy()
-        want = 1.0 / (1.0 + np.exp(-z))
+        want = ref_sigmoid(x0.numpy(), y0.numpy())
         req_value(ctx, case, "sigmoid", kind, val, want, max(1.0, amax(want)))
     unchanged(ctx, case, "sigmoid", [(x, x0), (y, y0)])
     ctx.count("err:" + kname(kind))
-    if corr and modelable(x0, y0):
+    if corr and modelable(x0, y0) and amax(x0.numpy()) > 300.0:
+        ctx.count("sigmoid: |x| > 300, not compared with the model (naive division in the model)")
+    elif corr and modelable(x0, y0):
         scale = max(1.0, amax(Z(val))) if kind == 0 else 1.0
         corr_res(ctx, case, "sigmoid", kind, val, ctx.get_model().call("c15_sigmoid", x0, y0), scale)
 
@@ -383,7 +427,7 @@ def eval_einsum(ctx, cplx, case, corr):
         elif ip:
             req_value(ctx, case, "einsum(imag_part only)", kind, val, want.imag, scale, rk="r")
         else:
-            ctx.require("einsum(real_part=False, imag_part=False) returns None", kind == 0 and val is None, case, repr(val)[:200])
+            ctx.count("einsum: no part requested (documented to return None; not a property clause)")
     unchanged(ctx, case, fn, [(x, x0), (y, y0)])
     ctx.count("err:" + kname(kind))
     if not corr or eq not in EQS or not modelable(x0, y0):
@@ -395,7 +439,9 @@ def eval_einsum(ctx, cplx, case, corr):
     r = ctx.get_model().call("c15_einsum", k, rp, ip, [int(d) for d in dims], x0, y0)
     if not corr_kind(ctx, case, fn, kind, r[0]) or kind != 0:
         return
-    itag = 0 if val is None else (3 if (rp and ip) else (1 if rp else 2))
+    if not rp and not ip:
+        return                  # no part requested: what is returned then (None today) is not a property clause
+    itag = 3 if (rp and ip) else (1 if rp else 2)
     if not ctx.agree_exact("einsum: which parts are returned (3 both, 1 real, 2 imag, 0 None)", itag, int(r[1]), case):
         return
     if itag == 3:
@@ -414,8 +460,27 @@ def eval_out(ctx, cplx, case, corr):
     want = X * Y
     scale = _bprod(X, Y)
     m = ctx.get_model() if (corr and modelable(x0, y0)) else None
-    if mode == "fresh":
-        out = torch.full((2,) + tuple(want.shape), float(case.get("fill", 0.0)), dtype=torch.double)
+    if mode == "wrong_shape":
+        out = mk(case, "out0")
+        out0 = out.clone()
+        assert tuple(out.shape[1:]) != tuple(want.shape)
+        kind, val = impl(lambda: cplx.scalar_mult(x, y, out=out))
+        ctx.require(WRONG_SHAPE_WHAT, kind != 0, case,
+                    "accepted (no error): returned a tensor of shape %s for a product of shape %s" % (
+                        list(val.shape) if hasattr(val, "shape") else type(val).__name__, list(want.shape)))
+        unchanged(ctx, case, "scalar_mult(out=wrong shape)", [(x, x0), (y, y0)])
+        if kind != 0:
+            ctx.require("a rejected out= buffer is left untouched", bool(torch.equal(out, out0)), case)
+        if m is not None and modelable(out0):
+            r = m.call("c15_scalar_mult_out", [x0, y0, out0], [0, 0], [1, 1], [2, 2])
+            if corr_kind(ctx, case, "scalar_mult(out=wrong shape)", kind, r[0]) and kind == 0:
+                rid = 2 if val is out else -1
+                ctx.agree_exact("scalar_mult(out=wrong shape): identity of the returned object", rid, int(r[1]), case)
+                corr_value(ctx, case, "scalar_mult(out=wrong shape): storage of out after the call", out, r[2][2],
+                           max(scale, amax(Z(out0)), 1.0))
+    elif mode == "fresh":
+        out = relayout(torch.full((2,) + tuple(want.shape), float(case.get("fill", 0.0)), dtype=torch.double),
+                       case.get("out_layout"))
         out0 = out.clone()
         kind, val = impl(lambda: cplx.scalar_mult(x, y, out=out))
         if req_value(ctx, case, "scalar_mult(out=fresh buffer)", kind, val, want, scale):
@@ -434,8 +499,8 @@ def eval_out(ctx, cplx, case, corr):
     elif mode in ("x", "y"):
         out = x if mode == "x" else y
         kind, val = impl(lambda: cplx.scalar_mult(x, y, out=out))
-        ctx.require("scalar_mult(out is %s) raises RuntimeError" % mode, kind == 2, case,
-                    "raised " + kname(kind) if kind != 0 else "returned a value (an operand was overwritten)")
+        ctx.require("scalar_mult(out is %s) is rejected with an error" % mode, kind != 0, case,
+                    "returned a value (an operand was overwritten)")
         if kind != 0:
             unchanged(ctx, case, "scalar_mult(out is operand)", [(x, x0), (y, y0)])
         if m is not None:
@@ -468,6 +533,47 @@ def eval_out(ctx, cplx, case, corr):
     ctx.count("out:" + mode)
 
 
+EXTREME = {
+    # fn: (call on tensors, native reference on numpy complex128)
+    "absolute_value": (lambda c, x, y: c.absolute_value(x), lambda X, Y: np.abs(X), "r"),
+    "inverse": (lambda c, x, y: c.inverse(x), lambda X, Y: 1.0 / X, "c"),
+    "elementwise_division": (lambda c, x, y: c.elementwise_division(x, y), lambda X, Y: X / Y, "c"),
+    "scalar_divide": (lambda c, x, y: c.scalar_divide(x, y), lambda X, Y: X / Y, "c"),
+    "norm": (lambda c, x, y: c.norm(x), lambda X, Y: ref_norm(X), "r"),
+}
+
+
+def eval_extreme(ctx, cplx, case):
+    """operands outside 1e-150..1e150 (sigmoid: |x| > 700) whose NATIVE result is finite: the property ('all finite
+    operand values') demands the native value; today |z|^2 overflows / underflows inside the kernel"""
+    fn = case["fn"]
+    x = mk(case, "x")
+    y = mk(case, "y") if "y" in case else None
+    with np.errstate(all="ignore"):
+        if fn == "sigmoid":
+            kind, val = impl(lambda: cplx.sigmoid(x, y))
+            want, rk = ref_sigmoid(x.numpy(), y.numpy()), "c"
+        else:
+            call, ref, rk = EXTREME[fn]
+            kind, val = impl(lambda: call(cplx, x, y))
+            want = np.asarray(ref(Z(x), Z(y) if y is not None else None))
+    ctx.count("extreme:" + fn)
+    if not bool(np.all(np.isfinite(want))):
+        ctx.count("extreme: native result not finite (nothing demanded)")
+        return
+    if kind != 0:
+        ok, detail = False, "raised " + kname(kind)
+    else:
+        try:
+            got = decode(val, rk)
+            with np.errstate(all="ignore"):
+                ok = got.shape == want.shape and bool(np.all(np.abs(got - want) <= 1e-9 * np.abs(want) + 1e-300))
+            detail = "" if ok else "got %r, native %r" % (got.reshape(-1)[:3].tolist(), want.reshape(-1)[:3].tolist())
+        except Exception as e:
+            ok, detail = False, repr(e)[:200]
+    ctx.require(EXTREME_WHAT, ok, case, detail)
+
+
 def eval_case(ctx, case, corr=True, shape_flag=True):
     """Run one self-contained case: implementation call, numpy oracle, model correspondence."""
     from qucumber.utils import cplx
@@ -483,12 +589,18 @@ def eval_case(ctx, case, corr=True, shape_flag=True):
                 nontriv = nontriv and t.size > 0 and bool(np.any(t[t.size // 2:] != 0))
     elif nontriv:
         nontriv = "y" in case and bool(np.any(np.asarray(common.flat(case["y"])) != 0))
-    opts = {k: case[k] for k in ("form", "out", "eq", "real_part", "imag_part", "expect", "x_is_I", "y_is_I", "transposed")
+    opts = {k: case[k] for k in ("form", "out", "eq", "real_part", "imag_part", "expect", "x_is_I", "y_is_I", "transposed",
+                                 "x_layout", "y_layout", "out_layout", "out_shape", "extreme_magnitude", "wide_magnitude")
             if k in case}
+    for k in ("x_layout", "y_layout", "out_layout"):
+        if case.get(k):
+            ctx.count("layout:" + case[k])
     ctx.case({"fn": fn, "shapes": shapes, "opts": opts, "h": float(x.sum()) if x.size else 0.0}, nontrivial=nontriv)
     ctx.count("fn:" + fn)
     ctx.count("rank:%d" % max(0, len(shapes[0] or []) - (1 if cplx_ops else 0)))
-    if fn == "make_complex":
+    if case.get("extreme_magnitude"):
+        eval_extreme(ctx, cplx, case)
+    elif fn == "make_complex":
         eval_make_complex(ctx, cplx, case, corr)
     elif fn == "sigmoid":
         eval_sigmoid(ctx, cplx, case, corr)
@@ -643,6 +755,19 @@ def g_out(ctx, n):
             yield ccase("scalar_mult", rc(ctx, sx), rc(ctx, sy), out="fresh", fill=[0.0, 3.25][d % 2]), True
         yield ccase("scalar_mult", rc(ctx, sx), rc(ctx, sy), out="x"), True
         yield ccase("scalar_mult", rc(ctx, sx), rc(ctx, sy), out="y"), True
+    # non-contiguous fresh buffers
+    for sx, sy in [((3,), (3,)), ((2, 3), (2, 3)), ((2, 3), (3,)), ((2, 2, 3), ())]:
+        for lay in ("s", "i", "t"):
+            yield ccase("scalar_mult", rc(ctx, sx), rc(ctx, sy), out="fresh", fill=1.5, out_layout=lay), True
+    # buffers whose shape is not the broadcast shape (more / fewer entries, same count in another shape, other rank)
+    wrong = [((3,), (3,), (2,)), ((3,), (3,), (4,)), ((3,), (3,), (3, 1)), ((3,), (3,), ()), ((), (), (2,)),
+             ((2, 3), (2, 3), (3, 2)), ((2, 3), (3,), (3,)), ((2, 3), (2, 3), (2, 2)), ((2, 3), (2, 3), (6,)),
+             ((), (2, 2), (2, 3)), ((2, 1), (1, 3), (2, 1)), ((2, 2, 2), (2, 2, 2), (2, 2)), ((4,), (), (1, 2, 3))]
+    for sx, sy, so in wrong:
+        for d in range(max(1, n // 4)):
+            c = ccase("scalar_mult", rc(ctx, sx), rc(ctx, sy), out="wrong_shape", out_wrong_shape=True, out_shape=list(so))
+            put(c, "out0", T(rc(ctx, so)))
+            yield c, True
     # the known finding: out is a VIEW of an operand (the aliased operand has the shape of the result)
     vx = [((3,), (3,)), ((), ()), ((4,), ()), ((2, 3), (2, 3)), ((2, 3), (3,)), ((2, 2, 2), (1, 2))]
     for sx, sy in vx + [(rshape(ctx, int(ctx.rng.integers(0, 4))),) * 2 for _ in range(2 * n)]:
@@ -758,15 +883,75 @@ def g_division(ctx, n):
 def g_sigmoid(ctx, n):
     for shp in elem_shapes(ctx, 2 * n):
         for d in range(n):
-            x = np.clip(rv(ctx, shp) * [1.0, 6.0][d % 2], -30.0, 30.0)
+            x = rv(ctx, shp) * [1.0, 6.0, 20.0][d % 3]            # |x| up to ~600, no clipping
             y = rv(ctx, shp)
             z = x + 1j * y
             if z.size and float(np.min(np.abs(1.0 + np.exp(z)))) < 1e-3:
                 ctx.count("skipped:sigmoid-near-pole")
                 continue
             yield put(put({"fn": "sigmoid"}, "x", R(x)), "y", R(y)), True
-    c = put(put({"fn": "sigmoid", "expect": "ValueError", "soft": True}, "x", R(rv(ctx, (3,)))), "y", R(rv(ctx, (4,))))
-    yield c, False
+    # numpy broadcasts the real against the imaginary argument
+    for sx, sy in BCAST_PAIRS + [rand_bcast_pair(ctx) for _ in range(2 * n)]:
+        x, y = rv(ctx, sx, kind="uniform"), rv(ctx, sy, kind="uniform")
+        z = x + 1j * y
+        if z.size and float(np.min(np.abs(1.0 + np.exp(z)))) < 1e-3:
+            ctx.count("skipped:sigmoid-near-pole")
+            continue
+        yield put(put({"fn": "sigmoid"}, "x", R(x)), "y", R(y)), sx != sy
+    for sx, sy in BAD_BCAST:
+        c = put(put({"fn": "sigmoid", "expect": "error"}, "x", R(rv(ctx, sx))), "y", R(rv(ctx, sy)))
+        yield c, False
+
+
+def big(ctx, shape, lo, hi):
+    """complex values with |re|, |im| = 10^(+-e), e uniform in [lo, hi], both signs of the exponent and of the value"""
+    rng = ctx.rng
+    shape = tuple(shape)
+
+    def part():
+        e = rng.uniform(lo, hi, size=shape) * rng.choice([-1.0, 1.0], size=shape)
+        return rng.uniform(1.0, 9.99, size=shape) * rng.choice([-1.0, 1.0], size=shape) * np.power(10.0, e)
+    return np.asarray(part() + 1j * part(), dtype=np.complex128).reshape(shape)
+
+
+def g_wide(ctx, n):
+    """hard requirement: magnitudes 1e-100..1e100 (1e-70..1e70 for quotients), native results finite"""
+    for shp in [(), (3,), (2, 3), (2, 1, 2)]:
+        for d in range(n):
+            for fn in ("absolute_value", "inverse", "conj", "conjugate"):
+                yield ccase(fn, big(ctx, shp, 0, 100), wide_magnitude=True), True
+            yield ccase("elementwise_division", big(ctx, shp, 0, 70), big(ctx, shp, 0, 70), wide_magnitude=True), True
+            yield ccase("scalar_divide", big(ctx, shp, 0, 70), big(ctx, (), 0, 70), wide_magnitude=True), True
+            yield ccase("scalar_mult", big(ctx, shp, 0, 100), big(ctx, shp, 0, 100) * 1e-50, wide_magnitude=True), True
+    for k in (1, 3, 5):
+        for d in range(n):
+            for fn in ("norm", "norm_sqr"):
+                yield ccase(fn, big(ctx, (k,), 0, 100), wide_magnitude=True), True
+            yield ccase("inner_prod", big(ctx, (k,), 0, 70), big(ctx, (k,), 0, 70), wide_magnitude=True), True
+            yield ccase("matmul", big(ctx, (2, k), 0, 70), big(ctx, (k, 3), 0, 70), wide_magnitude=True), True
+    for d in range(2 * n):
+        x = ctx.rng.uniform(300.0, 690.0, size=(3,)) * ctx.rng.choice([-1.0, 1.0], size=(3,))
+        yield put(put({"fn": "sigmoid", "wide_magnitude": True}, "x", R(x)), "y", R(rv(ctx, (3,), kind="uniform"))), True
+
+
+def g_extreme(ctx, n):
+    """1e+-155 .. 1e+-300 (sigmoid: 700 < |x| <= 745): reported under EXTREME_WHAT (open known finding)"""
+    def ext(shp):
+        return big(ctx, shp, 155, 300)
+    for shp in [(), (2,), (2, 2)]:
+        for d in range(max(2, n // 2)):
+            for fn in ("absolute_value", "inverse"):
+                yield ccase(fn, ext(shp), extreme_magnitude=True), True
+            yield ccase("elementwise_division", ext(shp), ext(shp), extreme_magnitude=True), True
+            yield ccase("elementwise_division", rc(ctx, shp), ext(shp), extreme_magnitude=True), True
+            yield ccase("scalar_divide", rc(ctx, shp), ext(()), extreme_magnitude=True), True
+    for k in (1, 3):
+        for d in range(max(2, n // 2)):
+            yield ccase("norm", ext((k,)), extreme_magnitude=True), True
+    for d in range(max(2, n // 2)):
+        x = ctx.rng.uniform(710.0, 745.0, size=(2,)) * np.array([1.0, -1.0])
+        c = put(put({"fn": "sigmoid", "extreme_magnitude": True}, "x", R(x)), "y", R(rv(ctx, (2,), kind="uniform")))
+        yield c, True
 
 
 GENERATORS = [
@@ -784,7 +969,32 @@ GENERATORS = [
     ("einsum", g_einsum),
     ("division", g_division),
     ("sigmoid", g_sigmoid),
+    ("wide magnitudes", g_wide),
+    ("extreme magnitudes", g_extreme),
 ]
+LAYOUTS = ["s", "i", "t", "e"]
+
+
+def add_layouts(ctx, case):
+    """every third valid case gets its operands in a non-contiguous / strided / stride-0 memory layout"""
+    if case.get("expect") or case.get("x_is_I") or case.get("y_is_I") or case.get("out") in ("x", "y", "view_x", "view_y"):
+        return case
+    if ctx.rng.random() < 0.34:
+        for k in ("x", "y"):
+            if k in case and ctx.rng.random() < 0.75:
+                lay = LAYOUTS[int(ctx.rng.integers(0, len(LAYOUTS)))]
+                if lay == "e":                       # make the values constant along the first tensor axis
+                    shp = case.get(k + "_shape") or []
+                    if len(shp) < 2 or shp[1] < 1:
+                        continue
+                    import torch
+                    t = torch.tensor(common.flat(case[k]), dtype=torch.double).reshape([int(v) for v in shp])
+                    if t.numel() == 0:
+                        continue
+                    put(case, k, t[:, :1].expand(*t.shape).contiguous())
+                case[k + "_layout"] = lay
+    return case
+
 
 
 def run(ctx):
@@ -793,7 +1003,7 @@ def run(ctx):
     for name, g in GENERATORS:
         t0 = time.time()
         for case, flag in g(ctx, n):
-            eval_case(ctx, case, corr=True, shape_flag=flag)
+            eval_case(ctx, add_layouts(ctx, case), corr=True, shape_flag=flag)
         ctx.extra.setdefault("wall_per_generator_s", {})[name] = round(time.time() - t0, 2)
     ctx.extra["run_wall_s"] = round(time.time() - t_all, 2)
 
@@ -807,7 +1017,7 @@ def search(ctx, broken, budget_s):
         rounds += 1
         for name, g in GENERATORS:
             for case, flag in g(ctx, 3):
-                if case.get("out_is_view_of_operand"):
+                if case.get("out_is_view_of_operand") or case.get("extreme_magnitude"):
                     continue
                 eval_case(ctx, case, corr=False, shape_flag=flag)
                 if len(ctx.failures) > n0:
